@@ -119,7 +119,7 @@ def exScan : Nat → Metrics → Pos → Option (Nat × Pos) × Nat := fun s _ p
     (some (s, ⟨min 7 (p.byte + s + 1), 0, min 7 (p.byte + s + 1)⟩), s + 1)
   else (none, s)
 
-def exEnv : LexEnv Nat Nat := ⟨exScan, fun _ t => t % 2 == 1⟩
+def exEnv : LexEnv Nat Nat := ⟨exScan, fun _ t => t % 2 == 1, fun _ b => ⟨b, 0, b⟩⟩
 
 theorem exEnv_ok (m : Metrics) : ScanOK exEnv m 7 := by
   constructor
